@@ -26,7 +26,7 @@ for pid in ids:
             "engine": "sa",
             "level_claimed": {
                 "category": "other",
-                "text": c["text"] + ((" Also decided (added after independently seeded changes, DESIGN.md 9.10-9.12): " + LATER_RULES[pid]) if pid in LATER_RULES else ""),
+                "text": c["text"] + ((" Also decided (added after independently seeded changes, DESIGN.md 9.10-9.12): " + registry.LATER_RULES[pid]) if pid in registry.LATER_RULES else ""),
                 "design_ref": c.get("design_ref", "DESIGN.md §3"),
             },
             "level_note": c["note"],
